@@ -623,6 +623,28 @@ func c20ProcAndLimits(c *vcore.Ctx, mode string, root cgroup.Cgroup, prefix stri
 				return vcore.Violate(prop, "limit_not_in_force", "cpu", "cpu bandwidth written %d/%d, in force %d/%d", q, p, gq, gp)
 			}
 		}
+		if has("pids") && src.Bool(1, 2, "second_handle_history") {
+			// a history over two handles of one group: what a handle wrote earlier says nothing about what
+			// is in force now - somebody else (another handle, an operator) may have written in between
+			g2, err := root.New("procs")
+			if err != nil {
+				return vcore.Violate(prop, "new_failed", mode+"/second_handle", "New on the existing group failed: %v", err)
+			}
+			file := filepath.Join(cgBase, "pids", prefix, "procs", "pids.max")
+			v1, v2 := uint64(10+src.Int(100, "hv1")), uint64(1000+src.Int(100, "hv2"))
+			for i, st := range []struct {
+				h cgroup.Cgroup
+				v uint64
+			}{{g, v1}, {g2, v2}, {g, v1}, {g2, v1}, {g2, v2}, {g, v2}} {
+				if err := st.h.SetProcLimit(st.v); err != nil {
+					return vcore.Violate(prop, "limit_failed", "pids/second_handle", "step %d: SetProcLimit(%d): %v", i, st.v, err)
+				}
+				if got := readUint(file); got != st.v {
+					return vcore.Violate(prop, "limit_not_in_force", "pids/second_handle", "step %d of a history over two handles of one group: SetProcLimit(%d) returned nil but pids.max is %d", i, st.v, got)
+				}
+			}
+			c.Probe("two_handle_limit_history")
+		}
 		if has("cpuacct") {
 			if _, err := g.CPUUsage(); err != nil {
 				return vcore.Violate(prop, "usage_failed", "cpuacct", "CPUUsage: %v", err)
@@ -755,6 +777,45 @@ func c20Stats(c *vcore.Ctx, mode, prefix string, ct *cgroup.Controllers, ctrls [
 		if v := check("ProcessPeak", pp, e4, pidsPeak); v != nil {
 			return v
 		}
+	}
+	// limit writers: what ends up in the kernel's control file is the limit the caller asked for, in the
+	// kernel's format (on the fake the files are plain files, so exactly the written text can be read back)
+	vals := []uint64{1, 1000, 10000, 100000, 250000, 1000000, 1 << 33}
+	q, pr := vals[src.Int(len(vals), "fquota")], vals[src.Int(5, "fperiod")]
+	mem, np := uint64(4096*(1+src.Int(1<<20, "fmem"))), uint64(1+src.Int(100000, "fpids"))
+	readTxt := func(rel string) string {
+		b, _ := os.ReadFile(rel)
+		return strings.TrimSpace(string(b))
+	}
+	if mode == "fake2" {
+		dir := filepath.Join(cgBase, prefix)
+		if err := h.SetCPUBandwidth(q, pr); err != nil {
+			return vcore.Violate(prop, "limit_failed", mode+"/cpu", "SetCPUBandwidth(%d,%d): %v", q, pr, err)
+		}
+		if got, want := readTxt(filepath.Join(dir, "cpu.max")), fmt.Sprintf("%d %d", q, pr); got != want {
+			return vcore.Violate(prop, "limit_not_in_force", mode+"/cpu", "SetCPUBandwidth(%d,%d) left %q in cpu.max, the kernel's format for that limit is %q", q, pr, got, want)
+		}
+		if err := h.SetMemoryLimit(mem); err != nil {
+			return vcore.Violate(prop, "limit_failed", mode+"/memory", "SetMemoryLimit(%d): %v", mem, err)
+		}
+		if got := readTxt(filepath.Join(dir, "memory.max")); got != fmt.Sprint(mem) {
+			return vcore.Violate(prop, "limit_not_in_force", mode+"/memory", "SetMemoryLimit(%d) left %q in memory.max", mem, got)
+		}
+		if err := h.SetProcLimit(np); err != nil {
+			return vcore.Violate(prop, "limit_failed", mode+"/pids", "SetProcLimit(%d): %v", np, err)
+		}
+		if got := readTxt(filepath.Join(dir, "pids.max")); got != fmt.Sprint(np) {
+			return vcore.Violate(prop, "limit_not_in_force", mode+"/pids", "SetProcLimit(%d) left %q in pids.max", np, got)
+		}
+		c.Probe("fake_v2_limit_writers_checked")
+	} else {
+		if err := h.SetMemoryLimit(mem); err != nil {
+			return vcore.Violate(prop, "limit_failed", mode+"/memory", "SetMemoryLimit(%d): %v", mem, err)
+		}
+		if got := readTxt(filepath.Join(cgBase, "memory", prefix, "memory.limit_in_bytes")); got != fmt.Sprint(mem) {
+			return vcore.Violate(prop, "limit_not_in_force", mode+"/memory", "SetMemoryLimit(%d) left %q in memory.limit_in_bytes", mem, got)
+		}
+		c.Probe("fake_v1_limit_writers_checked")
 	}
 	return nil
 }
